@@ -841,6 +841,16 @@ class VSocket:
         self.net.free_fd(self.fd)
         if self.state == "listening" and self.net.listeners.get(self.local_addr) is self:
             del self.net.listeners[self.local_addr]
+        if self.state == "listening":
+            # connections still waiting in the accept queue are reset by the kernel
+            while self.backlog:
+                s = self.backlog.popleft()
+                if not s.closed:
+                    s.closed = True
+                    self.net.free_fd(s.fd)
+                    self.net.log.append((self.net.k.now, "close", s.remote.cid if s.remote else None, "listener-closed"))
+                    if s.remote is not None:
+                        s.remote.closed_at = self.net.k.now
         self.net.log.append((self.net.k.now, "close", self.remote.cid if self.remote else None,
                              "reset" if self.linger_reset else "fin"))
         if self.remote is not None:
